@@ -29,6 +29,9 @@ def _clamps(prog, rep, qual, var, after_assign=True):
     fn = prog.func(qual)
     mod = fn.module
     n = 0
+    # the clamped variable is the one the function returns (no name assumed)
+    from ..rules_formula import returned_name
+    var = returned_name(fn.node) or var
     for node in ast.walk(fn.node):
         if not (isinstance(node, ast.Assign) and
                 isinstance(node.targets[0], ast.Name) and
@@ -44,14 +47,16 @@ def _clamps(prog, rep, qual, var, after_assign=True):
                     s.targets[0].value.id == var and \
                     isinstance(s.targets[0].slice, ast.Compare):
                 c = s.targets[0].slice
-                if not (isinstance(c.left, ast.Name) and c.left.id == var):
-                    continue
-                bound = paths.src(mod, c.comparators[0]).replace(' ', '')
                 val = paths.src(mod, s.value).replace(' ', '')
-                if isinstance(c.ops[0], ast.Lt):
-                    lows.append((bound, val))
-                elif isinstance(c.ops[0], ast.Gt):
-                    highs.append((bound, val))
+                # either spelling:  V < lo  /  lo > V
+                for l_, oc, r_, ln, rn in paths.cmp_facts([(c, True)]):
+                    if not (isinstance(ln, ast.Name) and ln.id == var):
+                        continue
+                    bound = paths.src(mod, rn).replace(' ', '')
+                    if oc is ast.Lt:
+                        lows.append((bound, val))
+                    elif oc is ast.Gt:
+                        highs.append((bound, val))
             # equivalent idiom:  V = np.clip(V, lo, hi)  /  np.clip(V, lo, hi, out=V)
             for c in ast.walk(s):
                 if isinstance(c, ast.Call) and \
